@@ -32,6 +32,12 @@ type JSON struct {
 	Keys []string
 	Vals []*JSON
 	B    bool // jsonb (meaningful on the root)
+	// Raw is the exact text of a json (NOT jsonb) value when it is known: the json type
+	// stores a copy of the input text (doc 8.14: "json ... stores an exact copy of the
+	// input text", white space, key order and duplicate keys are preserved), and the json
+	// producers (json_build_object, json_agg, …) have their own fixed spacing. Raw is
+	// ignored when B is set and is never carried over by Normalize.
+	Raw string
 }
 
 func (j *JSON) kindName() string {
@@ -123,24 +129,51 @@ func (j *JSON) Normalize() *JSON {
 	}
 	c := *j
 	c.B = true
+	c.Raw = ""
 	return &c
 }
 
+// normNumber gives the numeric text of a JSON number (jsonb stores numbers as numeric,
+// doc 8.14: `'{"reading": 1.230e-5}'::jsonb` prints `{"reading": 0.00001230}`): the display
+// scale is the number of fractional digits minus the exponent (never negative), trailing
+// fractional zeros are kept, there is no negative zero.
 func normNumber(s string) string {
-	if !strings.ContainsAny(s, "eE") {
-		if s == "-0" {
-			return "0"
+	neg := strings.HasPrefix(s, "-")
+	body := strings.TrimPrefix(s, "-")
+	exp := 0
+	if i := strings.IndexAny(body, "eE"); i >= 0 {
+		e, err := strconv.Atoi(strings.TrimPrefix(body[i+1:], "+"))
+		if err != nil || e > 100000 || e < -100000 {
+			return s
 		}
-		return s
+		exp, body = e, body[:i]
 	}
-	r, ok := new(big.Rat).SetString(s)
-	if !ok {
-		return s
+	ip, fp := body, ""
+	if i := strings.IndexByte(body, '.'); i >= 0 {
+		ip, fp = body[:i], body[i+1:]
 	}
-	if r.IsInt() {
-		return r.Num().String()
+	digits := ip + fp
+	scale := len(fp) - exp
+	if scale < 0 {
+		digits += strings.Repeat("0", -scale)
+		scale = 0
 	}
-	return r.FloatString(16)
+	if len(digits) <= scale {
+		digits = strings.Repeat("0", scale-len(digits)+1) + digits
+	}
+	ip, fp = digits[:len(digits)-scale], digits[len(digits)-scale:]
+	ip = strings.TrimLeft(ip, "0")
+	if ip == "" {
+		ip = "0"
+	}
+	out := ip
+	if scale > 0 {
+		out += "." + fp
+	}
+	if neg && strings.Trim(digits, "0") != "" {
+		out = "-" + out
+	}
+	return out
 }
 
 // ---------- parsing ----------
@@ -172,7 +205,17 @@ func (p *jparser) ws() {
 
 func (p *jparser) fail() error { return pgErr("22P02", "invalid input syntax for type json") }
 
+// value parses one JSON value and records its exact source text (see JSON.Raw).
 func (p *jparser) value(depth int) (*JSON, error) {
+	st := p.i
+	v, err := p.value1(depth)
+	if err == nil {
+		v.Raw = p.s[st:p.i]
+	}
+	return v, err
+}
+
+func (p *jparser) value1(depth int) (*JSON, error) {
 	if depth > 512 || p.i >= len(p.s) {
 		return nil, p.fail()
 	}
@@ -411,8 +454,88 @@ func jsonQuote(sb *strings.Builder, s string) {
 // same spacing (their exact whitespace is not observable by the ledger).
 func (j *JSON) String() string {
 	var sb strings.Builder
-	j.write(&sb)
+	if j.B {
+		j.write(&sb)
+	} else {
+		j.writeJSON(&sb)
+	}
 	return sb.String()
+}
+
+// writeJSON renders a json (not jsonb) value: verbatim when its text is known (Raw);
+// otherwise the value was converted from SQL data (to_json, row_to_json, array_to_json:
+// doc 9.16 Table 9.47, `row_to_json(row(1,'foo'))` → `{"f1":1,"f2":"foo"}`) and is printed
+// without any white space. A jsonb value embedded in it keeps the jsonb format.
+func (j *JSON) writeJSON(sb *strings.Builder) {
+	if j.B {
+		j.write(sb)
+		return
+	}
+	if j.Raw != "" {
+		sb.WriteString(j.Raw)
+		return
+	}
+	switch j.Kind {
+	case JArray:
+		sb.WriteByte('[')
+		for i, e := range j.Arr {
+			if i > 0 {
+				sb.WriteByte(',')
+			}
+			e.writeJSON(sb)
+		}
+		sb.WriteByte(']')
+	case JObject:
+		sb.WriteByte('{')
+		for i, k := range j.Keys {
+			if i > 0 {
+				sb.WriteByte(',')
+			}
+			jsonQuote(sb, k)
+			sb.WriteByte(':')
+			j.Vals[i].writeJSON(sb)
+		}
+		sb.WriteByte('}')
+	default:
+		j.write(sb)
+	}
+}
+
+// pinJSONText fixes the text of a json (not jsonb) container built by one of the json
+// producers: open/close brackets, `sep` between members and `kv` between a key and its
+// value are those of the producer (doc 9.16 Table 9.47: json_build_object →
+// `{"foo" : 1, "2" : …}`, json_build_array → `[1, 2, "foo"]`; 9.21: json_agg `[1, 2]`,
+// json_object_agg `{ "a" : 1, "b" : 2 }`). Each member keeps the text it has now, so a
+// later `->` returns it verbatim, as Postgres does by re-scanning the text.
+func pinJSONText(j *JSON, open, sep, kv, close string) *JSON {
+	var sb strings.Builder
+	sb.WriteString(open)
+	pin := func(e *JSON) {
+		t := e.String()
+		e.B, e.Raw = false, t
+		sb.WriteString(t)
+	}
+	switch j.Kind {
+	case JArray:
+		for i, e := range j.Arr {
+			if i > 0 {
+				sb.WriteString(sep)
+			}
+			pin(e)
+		}
+	case JObject:
+		for i, k := range j.Keys {
+			if i > 0 {
+				sb.WriteString(sep)
+			}
+			jsonQuote(&sb, k)
+			sb.WriteString(kv)
+			pin(j.Vals[i])
+		}
+	}
+	sb.WriteString(close)
+	j.B, j.Raw = false, sb.String()
+	return j
 }
 
 func (j *JSON) write(sb *strings.Builder) {
